@@ -158,6 +158,26 @@ Proof. vm_compute. repeat split; reflexivity. Qed.
 Example C15_nonvacuous_hyp : engine_ok exP exR exQ /\ qry_in_range exQ.
 Proof. split; [repeat split; try (vm_compute; congruence); repeat constructor|]. intros p Hp. cbn in Hp. unfold K. cbn. repeat (destruct Hp as [<-|Hp]; [split; vm_compute; congruence|]). destruct Hp. Qed.
 
+(* why the resolver loop retries: three chained members A, B, C (hand-built, first case of the resolver_direct stream); resolving the adjacent
+   pairs only - (A,B), then (B,C) - empties B and leaves query label 55 in both A and C (the verified checker rejects it); the loop of the
+   code pops the emptied member, resolves A against C as well, and the result is disjoint *)
+Definition exPair (rs rp qs qp s : Z) : spos := mkS (Pair (mkLabel rs rp) (mkLabel qs qp) 0 0) s.
+Definition exA := seg_create [exPair 30 30000 30 30000 20000; exPair 40 40000 40 40000 20000; exPair 52 52000 55 55000 20000] 0.
+Definition exB := seg_create [exPair 50 50000 50 50000 18000; exPair 60 60000 60 60000 18000] 10.
+Definition exC := seg_create [exPair 58 58000 55 55000 20000; exPair 70 70000 70 70000 20000; exPair 80 80000 80 80000 20000] 20.
+Definition exP0 := mkP 0 0 0 0 0 0 (20 # 1) 0.
+Example C15_retry_needed :
+  match chain exP0 [exC; exA; exB], resolve_conflicts exP0 [exC; exA; exB], resolve_pair exA exB with
+  | Ok ch, Ok out, Ok (a1, b1) =>
+    match resolve_pair b1 exC with
+    | Ok (b2, c1) => map speak ch = [0; 10; 20] /\ disjoint_dirb 1 [a1; b2; c1] = false /\ positions b2 = [] /\
+                     disjoint_dirb 1 out = true /\ map (fun s => length (positions s)) out = [2; 0; 3]%nat
+    | Err => False
+    end
+  | _, _, _ => False
+  end.
+Proof. vm_compute. repeat split; reflexivity. Qed.
+
 Print Assumptions C15_subrun_any_input.
 Print Assumptions C15_subrun.
 Print Assumptions C15_inputs_wellformed.
